@@ -125,11 +125,14 @@ class ShardStats(object):
 
 
 def safe_check(mod, case):
+    from mc import domains as _D
+    _D.VSHIFT = case.get("vshift", 0) if isinstance(case, dict) else 0
     try:
         r = mod.check(case)
     except Exception:
         r = bad("HARNESS-ERROR " + traceback.format_exc(limit=6), klass="harness-error")
     finally:
+        _D.VSHIFT = 0
         try:
             from mc import common
             common.reset_options()
@@ -148,7 +151,7 @@ def account(mod, known, st, case, r, cj=None):
     if r.get("nontrivial"):
         st.nontrivial.add(digest8(cj))
     sk = getattr(mod, "state_key", None)
-    st.states.add(digest8(jdump(sk(case) if sk else case.get("a", case))))
+    st.states.add(digest8(jdump([sk(case) if sk else case.get("a", case), case.get("vshift", 0)])))
     for k, v in (r.get("extra") or {}).items():
         st.extra[k] += v
     if not r["ok"]:
@@ -169,7 +172,10 @@ def run_shard(args):
     known = load_known(prop_id)
     st = ShardStats()
     try:
+        vs = shard.get("vshift") if isinstance(shard, dict) else None
         for case in mod.cases(shard, tier):
+            if vs:
+                case = dict(case, vshift=vs)
             r = safe_check(mod, case)
             account(mod, known, st, case, r)
     except Exception:
@@ -249,6 +255,10 @@ class Context(object):
         self.transitions += p["transitions"]
 
     def sweep(self, shards):
+        if self.tier == "thorough" and getattr(self.mod, "VARIANT_SWEEP", False):
+            from mc import domains as _D
+            shards = [dict(sh, vshift=k) if k else sh for k in range(len(_D.VARIANTS) - 1) for sh in shards]
+            self.variant_sweep = True
         order = list(range(len(shards)))
         random.Random(self.seed).shuffle(order)  # VERIF_SEED only permutes the shard order
         args = [(self.mod.ID, shards[i], self.tier) for i in order]
@@ -406,7 +416,9 @@ def run_property(prop_id, tier="quick", seed=0, jobs=None):
         "rule": getattr(mod, "RULE", ""),
         "samples": ctx.samples[:5] or [{"note": "no sample recorded"}],
         "exhaustive": exhaustive,
-        "bounds": mod.bounds(tier) if hasattr(mod, "bounds") else {},
+        "bounds": dict(mod.bounds(tier) if hasattr(mod, "bounds") else {},
+                       state_variants=("every case on each of the 7 history variants of its array (T, slice, take, ds, mono, relabel, shallow)"
+                                       if getattr(ctx, "variant_sweep", False) else "one history variant per array, chosen by its index")),
         "outcome_classes": dict(ctx.classes),
         "distinct_outcome_classes": len(ctx.classes),
         "unspecified_cases": ctx.unspecified,
